@@ -295,6 +295,11 @@ def run(run: Run) -> None:
         if quick and i % 3 != seed % 3:
             continue
         us.append((4, f"any4#{i}", g, (), 0.0))
+    # five players, no particular class (knowledge that is NOT consistent with superadditivity), K within distance 2 of minimal / full
+    for i, g in enumerate(A.a5_any_rule()):
+        if quick and i % 2 != seed % 2 and i < 12:
+            continue
+        us.append((5, f"any5#{i}", g, (), 0.0))
     # non-superadditive inputs are inside "every incomplete game on which both are defined": all of A3-ANY
     for i, g in enumerate(A.a3_any()):
         if quick and i % 3 != seed % 3:
